@@ -43,7 +43,8 @@ func builtinMathAtan2(call FunctionCall) Value {
 	if math.IsNaN(y) || math.IsNaN(x) {
 		return NaNValue()
 	}
-	return float64Value(math.Atan2(y, x))
+	// The result always has the sign of y (ES5 15.8.2.5); math.Atan2 loses it when y/x underflows to zero.
+	return float64Value(math.Copysign(math.Atan2(y, x), y))
 }
 
 func builtinMathAtanh(call FunctionCall) Value {
